@@ -98,9 +98,9 @@ pub fn obs_of(o: &Oracle, cp: u32) -> Value {
     let is_nsm = o.bidi_of(cp) == "NSM";
     json!({
         "id": class_value_g("Id", cp),
-        "idc": guarded(|| json!(class_value_char("Id", c))),
+        "idc": guarded(|| json!(class_value_char("Id", c))).as_str().unwrap_or("PANIC").to_string(),
         "ff": class_value_g("Ff", cp),
-        "ffc": guarded(|| json!(class_value_char("Ff", c))),
+        "ffc": guarded(|| json!(class_value_char("Ff", c))).as_str().unwrap_or("PANIC").to_string(),
         "reg": registry_obs(cp),
         "vir": ctx_obs("zwj", &[cp, 0x200d], 1),
         "greek": ctx_obs("keraia", &[0x0375, cp], 0),
